@@ -9,11 +9,12 @@
 (* library's use of the log store, and every public method of IRCServer,   *)
 (* OutputStream, LevelDBStore and api.HTTP) is a step list                 *)
 (*                                                                         *)
-(*      acq(lock, mode)   rel(lock)   sec(set of <<class, "R"|"W">>)       *)
+(*      acq(lock, mode)   rel(lock)   sec(rs, ws)                          *)
 (*                                                                         *)
-(* `sec' is one critical section: the reads and writes of shared storage   *)
-(* classes the code performs while holding exactly the locks acquired and  *)
-(* not yet released at that point (must-held lockset).  The step lists are *)
+(* `sec' is one critical section: the shared storage classes the code only *)
+(* reads (rs) and those it writes (ws) while holding exactly the locks     *)
+(* acquired and not yet released at that point (must-held lockset); rall / *)
+(* wall are the unions over an operation's sections.  The step lists are   *)
 (* NOT written by hand: /verif/tools/lockextract computes them from the    *)
 (* current source tree at check time and emits the root module (LocksOps)  *)
 (* that EXTENDS this one and defines OpsDef / LockNamesDef.                *)
@@ -40,7 +41,7 @@
 (***************************************************************************)
 EXTENDS Integers, Sequences, FiniteSets, TLC
 
-CONSTANTS Ops,          \* sequence of [name, threads, steps]
+CONSTANTS Ops,          \* sequence of [name, threads, steps, rall, wall]
           LockNames,    \* set of lock classes
           MultiThreads, \* thread classes with any number of goroutines
           SerialPairs,  \* extra pairs of operation names that never overlap
@@ -74,10 +75,18 @@ MayOverlap(i, j) ==
 (***************************************************************************)
 (* Init: every multiset of NSlots pairwise-overlapping operations.         *)
 (***************************************************************************)
+\* Operations that never touch a common class with at least one of them
+\* writing cannot violate the invariant in any interleaving; they are not
+\* started together (sound reduction of the set of initial states).
+CanConflict(i, j) ==
+    \/ Ops[i].wall \cap (Ops[j].rall \cup Ops[j].wall) # {}
+    \/ Ops[j].wall \cap Ops[i].rall # {}
+
 Init ==
     /\ op \in [Slots -> 1..N]
     /\ \A s \in Slots : s + 1 \in Slots => op[s] <= op[s + 1]
     /\ \A s, t \in Slots : s < t => MayOverlap(op[s], op[t])
+    /\ \E s, t \in Slots : s < t /\ CanConflict(op[s], op[t])
     /\ OnlyOps # {} => \A s \in Slots : op[s] \in OnlyOps
     /\ pc = [s \in Slots |-> 1]
     /\ rd = [l \in LockNames |-> {}]
@@ -127,12 +136,13 @@ Spec == Init /\ [][Next]_vars
 (***************************************************************************)
 InSection(s) == ~Done(s) /\ Cur(s).k = "sec"
 
-\* classes on which the two access sets conflict
-ConflictClasses(a1, a2) ==
-    {x[1] : x \in {y \in a1 : \E z \in a2 : z[1] = y[1] /\ (y[2] = "W" \/ z[2] = "W")}}
+\* classes on which two sections conflict: written by one, read or written by
+\* the other
+ConflictClasses(a, b) ==
+    (a.ws \cap (b.rs \cup b.ws)) \cup (b.ws \cap a.rs)
 
 Conflicts(s, t) ==
-    IF InSection(s) /\ InSection(t) THEN ConflictClasses(Cur(s).acc, Cur(t).acc) ELSE {}
+    IF InSection(s) /\ InSection(t) THEN ConflictClasses(Cur(s), Cur(t)) ELSE {}
 
 NoConflictingUnorderedAccess ==
     \A s, t \in Slots : s < t => Conflicts(s, t) = {}
